@@ -22,6 +22,26 @@ def parseFasta : List String → Rows
   | h :: q :: t => if h.startsWith ">" then ((h.drop 1).toString, bytesOfString q) :: parseFasta t else parseFasta (q :: t)
   | _ => []
 
+/-- sequential relaxed Phylip with several alignments: header `n L`, then `n` lines `name  sequence` -/
+def parsePhylipMulti (lines : List String) : List Rows :=
+  let rec go (fuel : Nat) (ls : List String) (acc : List Rows) : List Rows :=
+    match fuel, ls with
+    | 0, _ => acc.reverse
+    | _, [] => acc.reverse
+    | fuel + 1, h :: t =>
+      match (h.splitOn " ").filter (· != "") with
+      | [n, _] =>
+        match n.toNat? with
+        | some k =>
+          let rows := (t.take k).filterMap fun l =>
+            match (l.splitOn " ").filter (· != "") with
+            | [nm, sq] => some (nm, bytesOfString sq)
+            | _ => none
+          go fuel (t.drop k) (rows :: acc)
+        | none => go fuel t acc
+      | _ => go fuel t acc
+  go (lines.length + 1) lines []
+
 def handle : Handler := fun op args impl =>
   match op, args with
   | "subalign", [rows, st, ln] => do
@@ -184,6 +204,7 @@ def handle : Handler := fun op args impl =>
         if rev then
           match inverseCoordinates L a l with
           | .ok (ss, ls) =>
+            if ss.isEmpty then "rc=1 out=" else   -- nothing remains: an error (cmd/subseq.go)
             let pieces := (ss.zip ls).map fun w => subAlign rows L w.1 w.2
             let cat := rows.zipIdx.map fun (r, i) => (r.1, pieces.flatMap fun p => match p with
               | .ok pr => ((pr.getD i ("", [])).2) | _ => [])
@@ -203,8 +224,47 @@ def handle : Handler := fun op args impl =>
           let a := pos.getD st.toNat 0
           let b := pos.getD (st + ln - 1).toNat 0
           let keep := (List.range r.2.length).filter fun j => if rev then j < a || j > b else a ≤ j && j ≤ b
+          if keep.isEmpty then "rc=1 out=" else   -- an empty result is reported as an error, never a crash
           "rc=0 out=" ++ fasta (colsOf rows keep)
     some ⟨m, verdictOf (impl == exp) "subseq-refseq-cli"⟩
+  | "cli_subseq_multi", stdin :: "subseq" :: "-p" :: "--ref-seq" :: name :: "-s" :: st :: "-l" :: ln :: [] => do
+    -- several alignments in one (relaxed, sequential) Phylip input: each is cut independently
+    let st ← parseInt? st
+    let ln ← parseInt? ln
+    let als := parsePhylipMulti (stdin.splitOn "|")
+    let phy (r : Rows) : String :=
+      "   " ++ toString r.length ++ "   " ++ toString (lenOf r) ++ "|" ++
+      String.join (r.map fun x => x.1 ++ "  " ++ stringOfBytes x.2 ++ "|")
+    -- model: the command stops at the first alignment whose coordinates are invalid (what it wrote
+    -- before stays on stdout, but a failing status blanks the comparison)
+    let step (acc : Option String) (rows : Rows) : Option String :=
+      match acc with
+      | none => none
+      | some out =>
+        match refCoordinates rows name st ln with
+        | .ok (a, l, false) =>
+          match subAlign rows (lenOf rows) a l with
+          | .ok r => some (out ++ phy r)
+          | _ => none
+        | _ => none
+    let m := match als.foldl step (some "") with
+      | some out => "rc=0 out=" ++ out
+      | none => "rc=1 out="
+    -- predicate, independent: every alignment is cut at the positions of ITS OWN reference residues
+    let stepS (acc : Option String) (rows : Rows) : Option String :=
+      match acc, rows.find? (fun r => r.1 == name) with
+      | some out, some r =>
+        let pos := (List.range r.2.length).filter fun j => r.2.getD j 0 != GAP
+        if st < 0 || ln ≤ 0 || st + ln > pos.length then none
+        else
+          let a := pos.getD st.toNat 0
+          let b := pos.getD (st + ln - 1).toNat 0
+          some (out ++ phy (colsOf rows ((List.range r.2.length).filter fun j => a ≤ j && j ≤ b)))
+      | _, _ => none
+    let exp := match als.foldl stepS (some "") with
+      | some out => "rc=0 out=" ++ out
+      | none => "rc=1 out="
+    some ⟨m, verdictOf (impl == exp) "subseq-refseq-multi-cli"⟩
   | _, _ => none
 
 end Gv.Oracle.SitesOps
